@@ -29,6 +29,10 @@ func runC07(c *Ctx) {
 	// liveness under backpressure: nothing waits for the peer while holding a
 	// mutex the receive loop needs (shared with C08)
 	r08_9(c, "R07.8")
+	// end of stream or ERR before FIN must end Receive: the writers' waits see
+	// the group's cancellation only if the writer was built on the group context
+	// (shared with C04)
+	r04_10(c, "R07.9")
 }
 
 // recvLoop returns the receive-loop literal of receiver.run.
